@@ -41,8 +41,8 @@ META = dict(
     category='other',
     text='Acquire/release pairing obligations decided on every writer of the free-core column in the effective SQL program, with the guards that make '
          'each of them happen at most once per attempt, plus the Python in-memory mirror. Static because each obligation is a dominance/ordering fact in the routine text.',
-    note='Trusted: SQL parser, migration replay; MySQL ROW_COUNT() = 1 iff the INSERT..ON DUPLICATE KEY UPDATE inserted a new row. The inductive argument over histories is not decided.',
-    technique='static analysis: closed-world writer scan + guard dominance and statement ordering in stored routines + CFG checks on Python callers',
+    note='Trusted: SQL parser, migration replay; MySQL ROW_COUNT() = 1 iff the INSERT..ON DUPLICATE KEY UPDATE inserted a new row; InnoDB REPEATABLE READ (plain SELECT = consistent read from the view created by the first plain SELECT; locking reads / UPDATE see and lock the latest row until COMMIT). The inductive argument over histories is not decided; a plain guard read that is not provably stale is declined, not judged.',
+    technique='static analysis: closed-world writer scan + guard dominance and statement ordering in stored routines + lock-clause / read-view ordering facts over linearised transactions (CALLs inlined) + CFG checks on Python callers with helpers inlined',
     design_ref='DESIGN.md §3 C10',
 )
 
